@@ -32,6 +32,13 @@ if logs:
         sys.exit("no section for %s in %s" % (src, logs[0]))
 else:
     out = subprocess.run(["/verif/tools/seedrun.sh", os.path.join(src, "patch.diff")], stdout=subprocess.PIPE, stderr=subprocess.STDOUT).stdout.decode()
+if conf is None:
+    for l in out.splitlines():
+        if l.startswith("{") and '"seed"' in l:
+            try:
+                conf = json.loads(l)
+            except Exception:
+                pass
 det = []
 cur = None
 for l in out.splitlines():
